@@ -210,6 +210,10 @@ func checkC11(e *core.Env) {
 		}
 		if r.Intn(5) == 0 {
 			sc.Ret = Ret{How: "status", Code: uint32(1 + r.Intn(16)), Msg: "handler says no"}
+			if r.Intn(3) == 0 {
+				// codes outside the standard table, starting right behind it: an error reply like any other
+				sc.Ret.Code = pick[uint32](r, 17, 17, 18, 20, 64, 255, 1<<31, 1<<32-1)
+			}
 		}
 		run := svc.NewRun(sc, "http-direct")
 		defer svc.Forget(run)
@@ -329,7 +333,8 @@ func checkC11(e *core.Env) {
 				e.Violate(sig+"request-altered/"+fmt.Sprint(ctc.jsonCodec), "handler received a request that differs from the one encoded", w)
 			}
 			if sc.Ret.How == "status" {
-				if !strings.HasPrefix(grpcStatus, fmt.Sprint(sc.Ret.Code)+":") || rec.Code < 400 {
+				// (the header carries the code as a 32-bit number, signed or unsigned: C14 judges what the caller recovers)
+				if (!strings.HasPrefix(grpcStatus, fmt.Sprint(sc.Ret.Code)+":") && !strings.HasPrefix(grpcStatus, fmt.Sprint(int32(sc.Ret.Code))+":")) || rec.Code < 400 {
 					e.Violate(sig+"error-reply", fmt.Sprintf("handler failed with code %d: HTTP %d, X-GRPC-Status %q", sc.Ret.Code, rec.Code, grpcStatus), w)
 				}
 				return
